@@ -35,7 +35,7 @@ PLAN = {
                   model=[(2, "core")], deep=[], d2cap=120, sim=(12, 120), asan=False, procs=8, chunk=1200),
     "thorough": dict(types=["SO2d", "SO3d", "SE2d", "SE3d", "C1f", "Gald", "SEK3_2d", "SEK3_3d", "B3d", "B5d", "BNd", "SE3f", "Galf", "SE2f"],
                      model=[(2, "full")], deep=[("SO2", 3, "core"), ("C1", 3, "core"), ("SO3", 3, "core")],
-                     d2cap=4000, sim=(60, 2000), asan=True, procs=12, chunk=2500),
+                     d2cap=4000, sim=(60, 2000), asan=True, procs=10, chunk=2500),
 }
 SPEC_MUTANTS = [("alias", "SE3"), ("short", "SE2"), ("galso3", "Gal"), ("dofpsum", "B3")]
 
@@ -69,7 +69,7 @@ def run_model(mtype, depth, alpha, out, workdir, simulate=None, seed=1, workers=
     extra = []
     if simulate:
         extra = ["-depth", str(depth + 1), "-seed", str(seed)]
-    r = V.run_tlc("MapMem", "MapMem.cfg", workdir, env=mm_env(mtype, depth, alpha, out, bug), workers=workers, timeout=timeout, xmx="2g",
+    r = V.run_tlc("MapMem", "MapMem.cfg", workdir, env=mm_env(mtype, depth, alpha, out, bug), workers=workers, timeout=timeout, xmx="1500m",
                   extra=extra, simulate=(f"num={simulate}" if simulate else None))
     return r
 
@@ -392,7 +392,7 @@ def _check(oc, prop, tier, seed, replay, workdir):
                     oc.samples.append({k: V.dequad(x) for k, x in ev.items()})
 
     # ---- 5: sanitizers
-    if plan["asan"]:
+    if plan["asan"] or os.environ.get("VERIF_C16_ASAN"):   # (the variable is a development aid)
         extra["sanitizer_clean_programs"] = sanitizer_pass(oc, names, progs, workdir, seed)
 
     # ---- vacuity: every operation of the model must have been observed for every instantiation
